@@ -62,6 +62,8 @@ def _memoise(script):
 
     def find_force_fields(directory, force_fields=None):
         key = ('ff', str(directory))
+        if _MEMO.get('bypass'):
+            return real_find(directory) if force_fields is None else real_find(directory, force_fields)
         if force_fields is not None:
             return real_find(directory, force_fields)
         if key not in _MEMO:
@@ -70,6 +72,8 @@ def _memoise(script):
 
     def read_mapping_directory(directory, force_fields):
         key = ('map', str(directory), tuple(sorted(force_fields)))
+        if _MEMO.get('bypass'):
+            return real_read(directory, force_fields)
         if key not in _MEMO:
             _MEMO[key] = real_read(directory, force_fields)
         # two levels of dicts are combined/mutated by the script (combine_mappings)
@@ -78,6 +82,8 @@ def _memoise(script):
     def generate_all_self_mappings(force_fields):
         force_fields = list(force_fields)
         key = ('self', tuple(sorted(ff.name for ff in force_fields)))
+        if _MEMO.get('bypass'):
+            return real_self(force_fields)
         if key not in _MEMO:
             _MEMO[key] = real_self(force_fields)
         return collections_copy(_MEMO[key])
@@ -123,6 +129,8 @@ def run_inprocess(argv, workdir):
     code = 0
     err_text = ''
     logger.addHandler(collector)
+    # a run that extends force fields (-ff-dir / -map-dir) changes the parsed objects in place: it gets its own parse
+    _MEMO['bypass'] = any(str(a) in ('-ff-dir', '-map-dir') for a in argv)
     try:
         os.chdir(workdir)
         tmpdir = os.path.join(os.path.dirname(os.path.abspath(workdir)), 'tmp_' + os.path.basename(workdir))
@@ -141,6 +149,7 @@ def run_inprocess(argv, workdir):
         err_text = err.getvalue() + err_text
     finally:
         logger.removeHandler(collector)
+        _MEMO['bypass'] = False
         sys.argv = old_argv
         os.chdir(old_cwd)
         tempfile.tempdir = old_tmp
